@@ -139,7 +139,12 @@ func UnTarIndex(ctx context.Context, fs FilesystemWriter, index Index, s Store, 
 					break loop
 				}
 				pb.Increment()
-				b := <-data
+				b, ok := <-data
+				if !ok {
+					// The worker failed to get this chunk and reports the error. The
+					// archive stream ends here, later chunks must not be fed into it.
+					return nil
+				}
 				if _, err := io.Copy(w, bytes.NewReader(b)); err != nil {
 					return err
 				}
